@@ -390,6 +390,8 @@ def run(ctx):
             ctx.oracle_failures.append({"what": what, "input": inp,
                                         "match": {"kind": "run", "algo": cfg["algo"], "clause": clause}})
 
+    short = {"n": 0}      # generations whose merged population had fewer than N distinct designs
+
     def oracle_run(cfg, problem, rec, error):
         algo, N, G = cfg["algo"], cfg["N"], cfg["G"]
         if error is not None:
@@ -400,6 +402,22 @@ def run(ctx):
         succ = sum(1 for c in problem.calls if c[1])
         first = 1 if algo == "NSGAII" else 0
         want = [(t, N) for t in range(first, G + 1)]
+        if algo == "NSGAII":
+            # "exactly N designs each, none repeated": generation t+1 is the truncation of offspring + parent copies of pass t;
+            # when that merged population holds fewer than N DISTINCT designs (a grid of very few points with many re-rolled
+            # designs) N unrepeated designs do not exist, and the truncation returns all distinct ones (property C03:
+            # min(k, number of distinct designs)).  The clause is applied as min(N, distinct designs of the merged population);
+            # such generations are counted in the evidence.
+            # (merged population taken from what the harness observed itself: the offspring objects of evaluation batch t and
+            # the recorded generation t, not from the implementation's call of the truncation)
+            for t in range(1, G):
+                if t not in pops or t >= len(rec.batches):
+                    continue
+                merged = list(rec.batches[t]["objs"]) + list(pops[t])
+                distinct = len(set(tuple(float(x) for x in o.vector) for o in merged))
+                if distinct < N:
+                    want[t + 1 - first] = (t + 1, distinct)
+                    short["n"] += 1
         if sizes != want:
             fail("recorded generations (tag, size) = %r, required %r" % (sizes, want), cfg, "generations", observed=sizes)
         budget = N * G if algo == "NSGAII" else N * (G + 1)
@@ -737,6 +755,7 @@ def run(ctx):
                 "(algorithm, N, G, objectives, seed, schedule) resp. (population, offspring, choice); acceptance steps on a "
                 "1-member population count as trivial") % (n_list, g_list)
     stats["acceptance_standalone"] = acc_hist
+    stats["nsga_generations_with_fewer_than_N_distinct_designs_in_the_merged_population"] = short["n"]
     ctx.extra.update(stats)
 
 
